@@ -205,6 +205,27 @@ def lin_diff(a, b):
 _VOCAB = None
 
 
+_TVOCAB = None
+
+
+def is_unknown_struct(path):
+    """A type of the crate (not std, not a dependency) that is not in rules/vocabulary_types.txt."""
+    global _TVOCAB
+    path = str(path or "").split("<")[0]
+    if not path or not path.startswith(("internal::", "scanner", "pattern::", "find_matches", "match_type::", "span::", "position::", "with_positions::", "errors::")):
+        return False
+    if _TVOCAB is None:
+        import os
+        try:
+            with open(os.path.join(os.path.dirname(__file__), "vocabulary_types.txt")) as fh:
+                _TVOCAB = set(l.strip() for l in fh if l.strip())
+        except OSError:
+            _TVOCAB = set()
+    if not _TVOCAB:
+        return False
+    return path not in _TVOCAB and "span::Span" != path and "with_positions::WithPositions" != path
+
+
 def vocabulary():
     """Names of the crate's functions the rules were written against (rules/vocabulary.txt).  A function that is not in
     this inventory is a helper somebody introduced later: the rules know nothing about it by name, so its body is analysed
@@ -461,7 +482,12 @@ class Engine:
                     # pointer to an opaque object: the object itself becomes the root
                     root, steps = ("deref", cur) if cur[0] != "sym" else cur, ()
             elif k == "field":
-                steps = steps + (("f", e.get("n", str(e["i"])), e["i"], e.get("adt", "")),)
+                # a struct of the crate that the rules have never heard of (introduced later to carry a few values around) is a
+                # tuple with names: its fields are addressed by position
+                fname = e.get("n", str(e["i"]))
+                if is_unknown_struct(e.get("adt", "")):
+                    fname = str(e["i"])
+                steps = steps + (("f", fname, e["i"], e.get("adt", "")),)
             elif k == "downcast":
                 steps = steps + (("d", e.get("n", str(e["i"]))),)
             elif k == "index":
@@ -705,6 +731,8 @@ class Engine:
         if k == "aggregate":
             fs = tuple(self.operand(path, f) for f in rv["fields"])
             ak = rv.get("ak")
+            if ak == "adt" and is_unknown_struct(rv["path"]) and not rv.get("variant_is_enum"):
+                return ("tuple", fs) if fs else ("unit",)
             if ak == "adt":
                 # `Self { ..x }` / a struct rebuilt from all fields of one value, in order: that value (a plain move)
                 fnames = rv.get("field_names") or []
@@ -869,6 +897,10 @@ class Engine:
             if c_ == ("bool", False) or d_ is False:
                 return [(("int", 0), None)]
             return [(("int", 0), [(c_, False)]), (("int", 1), [(c_, True)])]
+        m_ = re.match(r"^<(bool|u8|u16|u32|u64|u128|usize|i8|i16|i32|i64|i128|isize|char) as std::default::Default>::default$", nm)
+        if m_ and not args:
+            # the default of a primitive (a derived Default of a small struct carries these)
+            return [((("bool", False) if m_.group(1) == "bool" else (("const", "'\\0'") if m_.group(1) == "char" else ("int", 0))), None)]
         if IDENTITY_CALLS.search(nm) and args:
             a0 = args[0]
             if re.search(r"Option::<.*>::(as_ref|as_mut|copied|cloned)$", nm):
